@@ -25,6 +25,7 @@ func init() {
 
 func runC08(w *World, r *Report) {
 	hrCleanAll(w, r, "R2")
+	hrRestoreBeforeFallbackReload(w, r, "R3")
 	hrNotifyHubInBackground(w, r, "R4")
 	hrMetricsPathIsTheConfiguredFile(w, r, "R2")
 	hrKnownEndpointsAlwaysWritten(w, r, "R3")
